@@ -10,6 +10,7 @@ import Ztr.Model.Bytecode
 import Ztr.Model.Threads
 import Ztr.Model.Bracket
 import Ztr.Model.Sched
+import Ztr.Model.Xml
 /-!
 Line protocol between the Python harness and the executable model: one JSON object per line in,
 one JSON object per line out.  `op` selects the model component.  Unknown or malformed requests are
@@ -400,6 +401,31 @@ def opSched (j : Json) : Except String Json := do
   return Json.mkObj [("printed", Json.arr (r.printed.map (fun (i, ls) => Json.arr #[jN i, jNats ls])).toArray),
     ("cur", jN r.cur), ("maxRunning", jN r.maxRunning), ("finished", Json.bool (Ztr.Sched.finished r))]
 
+/-- `xml`: record a history of result events and render every report file -/
+def opXml (j : Json) : Except String Json := do
+  let host ← J.nats! j "host"
+  let stamp ← J.nats! j "stamp"
+  let evs ← (← J.arr! j "events").toList.mapM (fun (x : Json) => do
+    let o ← J.arr! x "obj"
+    let tag ← o[0]!.getStr?
+    let strAt (i : Nat) : Except String (List Nat) := do (← o[i]!.getArr?).toList.mapM (fun y => y.getNat?)
+    let obj ← (match tag with
+      | "unit" => do return Ztr.Xml.TestObj.unit (← strAt 1) (← strAt 2) (← strAt 3)
+      | "sub" => do return Ztr.Xml.TestObj.sub (← strAt 1) (← strAt 2) (← strAt 3) (← strAt 4)
+      | "startup" => do return Ztr.Xml.TestObj.startup (← strAt 1)
+      | _ => throw s!"bad obj {tag}" : Except String Ztr.Xml.TestObj)
+    let kindS ← J.str! x "kind"
+    let kind ← (match kindS with
+      | "success" => pure Ztr.Xml.Kind.success | "failure" => pure .failure | "error" => pure .error
+      | _ => throw "bad kind" : Except String Ztr.Xml.Kind)
+    let names := Ztr.Xml.parseNames obj
+    let c : Ztr.Xml.Case := { className := names.2.2, name := names.2.1, time := ← J.nats! x "time", kind := kind, message := ← J.nats! x "message", etype := ← J.nats! x "etype", text := ← J.nats! x "text" }
+    return (names.1, c))
+  let suites := evs.foldl (fun ss (p : List Nat × Ztr.Xml.Case) => Ztr.Xml.record ss p.1 p.2) []
+  let stime ← J.nats! j "suite_time"
+  return Json.mkObj [("files", Json.arr (suites.map (fun s =>
+    Json.arr #[jNats s.name, jNats (Ztr.Xml.renderSuite s host stime stamp)])).toArray)]
+
 def dispatch (j : Json) : Except String Json := do
   let op ← J.str! j "op"
   match op with
@@ -411,6 +437,7 @@ def dispatch (j : Json) : Except String Json := do
   | "threads" => opThreads j
   | "bracket" => opBracket j
   | "sched" => opSched j
+  | "xml" => opXml j
   | "world" => opWorld j
   | "proto" => opProto j
   | "suites" => opSuites j
